@@ -310,9 +310,10 @@ def run(ctx):
         else:
             events.append(dict(ev, op="allsuper", trees=ptrees(allt, back)))
     for _ in range(600 if thorough else 100):
-        size = rng.randint(2, 9)
+        big = rng.random() < 0.25
+        size = rng.randint(10, 40) if big else rng.randint(2, 9)
         ops = []
-        for _ in range(rng.randint(1, 12)):
+        for _ in range(rng.randint(size, 3 * size) if big else rng.randint(1, 12)):
             if rng.random() < 0.75:
                 ops.append(("u", rng.randrange(size), rng.randrange(size)))
             else:
@@ -320,11 +321,13 @@ def run(ctx):
                 ops.append(("f", a, a))
         ctx.nontrivial.add(("rdsu", size, tuple(ops)))
         got = replay_dsu(A, size, ops, with_binary=size <= 7)
+        if size > 7 and not isinstance(got, mc.Raised) and got["nblocks"] <= 6:
+            got = replay_dsu(A, size, ops, with_binary=True)   # many elements, few blocks
         if isinstance(got, mc.Raised):
             ctx.violation(f"DisjointSet({size}) fails on {ops}: {got.text}", {"engine": "E3", "op": "dsu", "size": size,
                                                                               "ops": [list(o) for o in ops]})
             continue
-        if size > 7:
+        if not got["with_binary"]:
             continue
         events.append({"op": "dsu", "size": size, "ops": [list(o) for o in ops], "rets": got["rets"],
                        "blocks": sorted(sorted(b) for b in got["blocks_list"]), "len": got["len"],
@@ -374,6 +377,7 @@ def replay_dsu(A, size, ops, with_binary=True):
                "blocks": frozenset(frozenset(b) for b in blocks_list), "len": len(dsu),
                "same": {(a, b) for a in range(size) for b in range(size) if dsu.find(a) == dsu.find(b)}}
         out["binary"] = []
+        out["with_binary"] = with_binary
         if with_binary:
             for sub in dsu.binary():
                 out["binary"].append(frozenset(frozenset(b) for b in sub.to_list()))
